@@ -1,7 +1,7 @@
 """Single source for MANIFEST.json (bin/mkmanifest)."""
 
-HOOK_COMMITS = ["673019b", "625d9ba", "1d37b76"]
-FIX_COMMITS = ["12c9092", "3e9b6da", "a55c868", "5489af8", "72a27af", "81e61a6"]   # filled by bin/mkmanifest callers: /repo commits that add guarded hooks
+HOOK_COMMITS = ["673019b", "625d9ba", "1d37b76", "2f6eef4"]
+FIX_COMMITS = ["12c9092", "3e9b6da", "a55c868", "5489af8", "dc51f1b", "72a27af", "81e61a6"]   # filled by bin/mkmanifest callers: /repo commits that add guarded hooks
 
 NOTES = ("All checks: bin/check <id>. Exit 0 = held, 1 = VIOLATION line + replay file, 2 = tool error (never a verdict). "
          "Specs under spec/<family>/, harness under harness/ (path deps on /repo; rebuilt by every check). "
@@ -111,6 +111,10 @@ CHECKS["C20"] = dict(engine="tlc+vh", level="exploration", ref="4.10", technique
 CHECKS["C14"] = dict(engine="tlc+vh", level="exploration", ref="4.6", technique="TLA+ spec (Aggregate.tla) computes exact rational references with TLC for every batch of the bound; each batch run through the row, shared-event and columnar paths of the real Aggregator",
                      text="The oracle lives in the specification (exact rationals, sanity-checked by TLC); the implementation is compared within float tolerances on all 39 216 (thorough 274 514) batches including a 10^9 offset variant, and the three paths must agree on every cell.",
                      note="Trusted: float tolerances (1e-9 relative, variance 1e-6). Cells the documentation leaves open (NaN in stddev/ema/first/last/distinct, strings in distinct) are only checked for path agreement.")
+
+CHECKS["C30"] = dict(engine="tlc+vh", level="model_checking", ref="4.17", technique="TLA+ spec (RateLimit.tla) model-checked with TLC for every accepted configuration; histories replayed into the real RateLimiter on a virtual clock (hook H8); recorded verdicts validated by TLC (RateLimitTrace.tla: interval bound per tracking epoch, finiteness, no panic)",
+                     text="Bound is a TLC invariant over all tick/request sequences of the bound; on recorded executions TLC evaluates the same interval bound on the REAL admissions (with the model's tracking epochs), checks that no call panicked and that rejections carry a retry-after.",
+                     note="Trusted: hook H8 shadows Instant::now() in TokenBucket. Bounded: 2 clients, capacity 1..2, rate 0..4, burst 0..5, <= 60 operations, ms-granular times incl. idle periods of seconds.")
 
 NOT_APPLICABLE = {
     "C41": "parser totality over arbitrary strings: no state/transition system to specify; a TLA+ model would only enumerate token strings (fuzzing under another name)",
